@@ -24,6 +24,7 @@ import (
 	"go/token"
 	"path/filepath"
 	"sort"
+	"strconv"
 	"strings"
 )
 
@@ -1178,6 +1179,261 @@ func analyseFacts(repo, rel, recv, fn, leanName string, w *strings.Builder) {
 	fmt.Fprintf(w, "\n    ] }\n\n")
 }
 
+// ---- LongestORF search mode (regular expression or scan) ---------------------------------------
+
+func emitOrfSearch(repo string, w *strings.Builder) {
+	f := parseFile(filepath.Join(repo, "align/sequence.go"))
+	fd := findFunc(f, "seq", "LongestORF")
+	if fd == nil || fd.Body == nil {
+		die("facts: seq.LongestORF not found")
+	}
+	lit, findAll, other := "", false, false
+	ast.Inspect(fd.Body, func(n ast.Node) bool {
+		c, ok := n.(*ast.CallExpr)
+		if !ok {
+			return true
+		}
+		if isSel(c.Fun, "regexp", "Compile") || isSel(c.Fun, "regexp", "MustCompile") {
+			if len(c.Args) == 1 {
+				if bl, ok := c.Args[0].(*ast.BasicLit); ok && bl.Kind == token.STRING {
+					v, err := strconv.Unquote(bl.Value)
+					if err != nil {
+						die("facts: cannot unquote the regular expression of LongestORF")
+					}
+					lit = v
+					return true
+				}
+			}
+			die("facts: the regular expression of LongestORF is not a string literal")
+		}
+		if se, ok := c.Fun.(*ast.SelectorExpr); ok {
+			if se.Sel.Name == "FindAllStringIndex" {
+				findAll = true
+			} else if strings.HasPrefix(se.Sel.Name, "Find") || se.Sel.Name == "Longest" {
+				other = true
+			}
+		}
+		return true
+	})
+	switch {
+	case lit != "" && findAll && !other:
+		fmt.Fprintf(w, "/-- `seq.LongestORF` searches with `regexp` + `FindAllStringIndex` (non-overlapping matches) -/\n"+
+			"def longestOrfRegex : Option String := some %s\n\n", q(lit))
+	case lit == "" && !findAll && !other:
+		fmt.Fprintf(w, "/-- `seq.LongestORF` does not use `regexp` -/\ndef longestOrfRegex : Option String := none\n\n")
+	default:
+		die("facts: seq.LongestORF uses regexp in a way that is not understood (literal=%q FindAllStringIndex=%v other=%v)", lit, findAll, other)
+	}
+}
+
+// ---- mutation facts for the phasing functions ---------------------------------------------------
+
+// inPlaceFuncs: package-level functions that assign to an element of a parameter
+func inPlaceFuncs(f *ast.File) map[string]bool {
+	out := map[string]bool{}
+	for _, d := range f.Decls {
+		fd, ok := d.(*ast.FuncDecl)
+		if !ok || fd.Recv != nil || fd.Body == nil || fd.Type.Params == nil {
+			continue
+		}
+		params := map[string]bool{}
+		for _, p := range fd.Type.Params.List {
+			for _, n := range p.Names {
+				params[n.Name] = true
+			}
+		}
+		ast.Inspect(fd.Body, func(n ast.Node) bool {
+			if as, ok := n.(*ast.AssignStmt); ok {
+				for _, l := range as.Lhs {
+					if ie, ok := l.(*ast.IndexExpr); ok {
+						if id, ok := ie.X.(*ast.Ident); ok && params[id.Name] {
+							out[fd.Name.Name] = true
+						}
+					}
+				}
+			}
+			return true
+		})
+	}
+	return out
+}
+
+func baseIdentOf(e ast.Expr) *ast.Ident {
+	for {
+		switch x := e.(type) {
+		case *ast.Ident:
+			return x
+		case *ast.IndexExpr:
+			e = x.X
+		case *ast.SelectorExpr:
+			e = x.X
+		case *ast.ParenExpr:
+			e = x.X
+		case *ast.StarExpr:
+			e = x.X
+		case *ast.SliceExpr:
+			e = x.X
+		default:
+			return nil
+		}
+	}
+}
+
+// seqMutators: methods of *seq that write through the receiver
+func seqMutators(f *ast.File) []string {
+	inplace := inPlaceFuncs(f)
+	var out []string
+	for _, d := range f.Decls {
+		fd, ok := d.(*ast.FuncDecl)
+		if !ok || fd.Recv == nil || fd.Body == nil || len(fd.Recv.List) != 1 || len(fd.Recv.List[0].Names) != 1 {
+			continue
+		}
+		st, ok := fd.Recv.List[0].Type.(*ast.StarExpr)
+		if !ok {
+			continue
+		}
+		if id, ok := st.X.(*ast.Ident); !ok || id.Name != "seq" {
+			continue
+		}
+		recv := fd.Recv.List[0].Names[0].Name
+		mut := false
+		ast.Inspect(fd.Body, func(n ast.Node) bool {
+			switch x := n.(type) {
+			case *ast.AssignStmt:
+				if x.Tok == token.DEFINE {
+					return true
+				}
+				for _, l := range x.Lhs {
+					if _, isIdent := l.(*ast.Ident); isIdent {
+						continue // assignment to a local / named result
+					}
+					if id := baseIdentOf(l); id != nil && id.Name == recv {
+						mut = true
+					}
+				}
+			case *ast.IncDecStmt:
+				if _, isIdent := x.X.(*ast.Ident); !isIdent {
+					if id := baseIdentOf(x.X); id != nil && id.Name == recv {
+						mut = true
+					}
+				}
+			case *ast.CallExpr:
+				if id, ok := x.Fun.(*ast.Ident); ok && (inplace[id.Name] || id.Name == "copy") {
+					for k, a := range x.Args {
+						if id.Name == "copy" && k != 0 {
+							continue
+						}
+						if b := baseIdentOf(a); b != nil && b.Name == recv {
+							mut = true
+						}
+					}
+				}
+			}
+			return true
+		})
+		if mut {
+			out = append(out, fd.Name.Name)
+		}
+	}
+	sort.Strings(out)
+	return out
+}
+
+func emitMutationFacts(repo string, w *strings.Builder) {
+	sf := parseFile(filepath.Join(repo, "align/sequence.go"))
+	muts := seqMutators(sf)
+	isMut := map[string]bool{}
+	for _, m := range muts {
+		isMut[m] = true
+	}
+	fmt.Fprintf(w, "/-- methods of `*seq` that write through the receiver (assignment to a field / element, or the receiver's\nbuffer handed to an in-place function) -/\ndef seqMutators : List String := %s\n\n", qlist(muts))
+	type site struct {
+		file, recv, fn string
+	}
+	sites := []site{{"align/phaser.go", "phaser", "Phase"}, {"align/phaser.go", "phaser", "alignAgainstRefsAA"},
+		{"align/phaser.go", "phaser", "alignAgainstRefsNT"}, {"align/seqbag.go", "seqbag", "LongestORF"},
+		{"align/seqbag.go", "seqbag", "SequencesChan"}}
+	var lines []string
+	for _, st := range sites {
+		f := parseFile(filepath.Join(repo, st.file))
+		fd := findFunc(f, st.recv, st.fn)
+		if fd == nil || fd.Body == nil {
+			die("facts: %s.%s not found in %s", st.recv, st.fn, st.file)
+		}
+		// assignments in textual order: variable -> position and whether the value is a fresh clone
+		type asg struct {
+			pos   token.Pos
+			fresh bool
+		}
+		assigns := map[string][]asg{}
+		ast.Inspect(fd.Body, func(n ast.Node) bool {
+			as, ok := n.(*ast.AssignStmt)
+			if !ok {
+				return true
+			}
+			for i, l := range as.Lhs {
+				id, ok := l.(*ast.Ident)
+				if !ok {
+					continue
+				}
+				fresh := false
+				if len(as.Rhs) == len(as.Lhs) {
+					if c, ok := as.Rhs[i].(*ast.CallExpr); ok {
+						if se, ok := c.Fun.(*ast.SelectorExpr); ok && se.Sel.Name == "Clone" && len(c.Args) == 0 {
+							fresh = true
+						}
+					}
+				}
+				assigns[id.Name] = append(assigns[id.Name], asg{as.Pos(), fresh})
+			}
+			return true
+		})
+		ast.Inspect(fd.Body, func(n ast.Node) bool {
+			switch x := n.(type) {
+			case *ast.CallExpr:
+				se, ok := x.Fun.(*ast.SelectorExpr)
+				if !ok || !isMut[se.Sel.Name] {
+					return true
+				}
+				id, ok := se.X.(*ast.Ident)
+				if !ok {
+					lines = append(lines, fmt.Sprintf("  { fn := %s, recv := \"<expr>\", method := %s, fresh := false, line := %d }",
+						q(st.fn), q(se.Sel.Name), posLine(x.Pos())))
+					return true
+				}
+				// the last assignment to the receiver variable textually before the call
+				fresh := false
+				var best token.Pos = token.NoPos
+				for _, a := range assigns[id.Name] {
+					if a.pos < x.Pos() && a.pos > best {
+						best = a.pos
+						fresh = a.fresh
+					}
+				}
+				lines = append(lines, fmt.Sprintf("  { fn := %s, recv := %s, method := %s, fresh := %s, line := %d }",
+					q(st.fn), q(id.Name), q(se.Sel.Name), lb(fresh), posLine(x.Pos())))
+			case *ast.AssignStmt:
+				// element writes through an accessor: x.SequenceChar()[i] = …
+				for _, l := range x.Lhs {
+					hasCall := false
+					ast.Inspect(l, func(m ast.Node) bool {
+						if _, ok := m.(*ast.CallExpr); ok {
+							hasCall = true
+						}
+						return true
+					})
+					if _, isIdx := l.(*ast.IndexExpr); isIdx && hasCall {
+						lines = append(lines, fmt.Sprintf("  { fn := %s, recv := \"<accessor>\", method := \"[]=\", fresh := false, line := %d }",
+							q(st.fn), posLine(l.Pos())))
+					}
+				}
+			}
+			return true
+		})
+	}
+	fmt.Fprintf(w, "/-- every call of a mutating `Sequence` method (by name) and every element write through an accessor in\n`Phase`, `alignAgainstRefsAA`, `alignAgainstRefsNT`, `seqbag.LongestORF`, `seqbag.SequencesChan`; `fresh` = the\nreceiver variable was last assigned from `….Clone()` -/\ndef phaseMutCalls : List MutCall := [\n%s\n]\n\n", strings.Join(lines, ",\n"))
+}
+
 // emitFacts writes lean/Gv/Gen/Facts.lean
 func emitFacts(repo, out string) {
 	var w strings.Builder
@@ -1185,6 +1441,8 @@ func emitFacts(repo, out string) {
 	w.WriteString("import Gv.Model.Facts\nnamespace Gv.Gen.Facts\nopen Gv.Model.Facts\n\n")
 	analyseFacts(repo, "distance/dna/distance.go", "", "DistMatrix", "distMatrix", &w)
 	analyseFacts(repo, "align/phaser.go", "phaser", "Phase", "phase", &w)
+	emitOrfSearch(repo, &w)
+	emitMutationFacts(repo, &w)
 	w.WriteString("end Gv.Gen.Facts\n")
 	writeIfChanged(filepath.Join(out, "Facts.lean"), w.String())
 }
